@@ -417,6 +417,11 @@ def main(chk):
         for rt in refpaths:
             points.append(['-r', 'REF:' + rt, '-f', str(r0.choice([1, 2, 3])), '-t', str(r0.choice(tvals))])
             points.append(['-r', 'REF:' + rt, '-t', '2'] + r0.choice([[], ['-p'], ['-g', '-m']]))
+        # extreme values of -f (one file per 2^32-1 functions is the same as one file): alone and with a reference module
+        for fv in ('4294967295', '4294967294', '2147483648'):
+            points.append(['-f', fv, '-t', '2'])
+            rt = r0.choice(list(refpaths))
+            points.append(['-r', 'REF:' + rt, '-f', fv, '-t', str(r0.choice(tvals))])
         for _ in range(4 if quick else 12):
             o = []
             for flag in ('-p', '-m', '-g'):
